@@ -731,6 +731,7 @@ func main() {
 			}
 		}
 	}
+	emitKernels(&sb, get)
 	fmt.Fprintf(&sb, "\nDefinition rule_prologues : list (string * string) :=\n  [ %s ].\n", strings.Join(prologues, ";\n    "))
 	// write only when changed (keeps make incremental)
 	old, _ := os.ReadFile(out)
